@@ -365,15 +365,14 @@ def test_dirs(options, seen):
 def walk_with_symlinks(options, dir):
     # TODO -- really should have test of this that uses symlinks
     #         this is hard on a number of levels ...
-    for dirpath, dirs, files in os.walk(dir):
+    # Symbolically linked directories are visited like real ones, in their
+    # sorted position (and subject to whatever the caller prunes from
+    # ``dirs``), so that the order of the walk is sorted by path.
+    for dirpath, dirs, files in os.walk(dir, followlinks=True):
         dirs.sort()
         files.sort()
         dirs[:] = [d for d in dirs if d not in options.ignore_dir]
         yield (dirpath, dirs, files)
-        for d in dirs:
-            p = os.path.join(dirpath, d)
-            if os.path.islink(p):
-                yield from walk_with_symlinks(options, p)
 
 
 compiled_suffixes = '.pyc', '.pyo'
